@@ -286,3 +286,219 @@ Proof.
       destruct (IH (pop_operator s) H2) as (t & T1 & T2 & T3); [rewrite Eo in *; cbn in *; lia|].
       exists t. repeat split; auto. congruence.
 Qed.
+
+(* ------------------------------------------------------------------ *)
+(* C02_yield for the repaired loop: the position is always restored to *)
+(* the outer checkpoint when the run ends, and a non-associative       *)
+(* conflict ends the run.                                               *)
+(* ------------------------------------------------------------------ *)
+Section Yield.
+Variable tb : table.
+Variable toks : list tok.
+
+Definition set_pos (s : st) (p : nat) := MK (opds s) (ops s) (marker s) (outer s) p.
+Definition nonempty {A} (l : list A) := match l with [] => false | _ => true end.
+
+Fixpoint main2 (k : nat) (s : st) : option st :=
+  match k with 0 => None | S k =>
+    let s := prefixes tb toks (length toks + 1) s in
+    match parse_opd toks (pos s) with
+    | None => Some (if nonempty (opds s) then set_pos s (outer s) else s)
+    | Some (v, p') =>
+        let s := MK (Opd v :: opds s) (ops s) (marker s) (outer s) p' in
+        let s := postfixes tb toks (length toks + 1) s in
+        let s := MK (opds s) (ops s) (length (ops s)) (pos s) (pos s) in
+        if negb (has_infix tb) then Some s else
+        match parse_op tb toks is_infix_row (pos s) with
+        | None => Some s
+        | Some ((prec, a, name), p') =>
+            let '(s1, conflict) := prec_loop (length (ops s) + 1) prec (set_pos s p') in
+            if conflict then Some s1
+            else main2 k (MK (opds s1) ((prec, a, name) :: ops s1) (length (ops s1)) (outer s1) (pos s1))
+        end
+    end end.
+
+Lemma firstn_snoc {A} (l : list A) : forall p x, nth_error l p = Some x -> firstn (S p) l = firstn p l ++ [x].
+Proof.
+  induction l as [|y l IH]; intros [|p] x H; cbn in *; try discriminate.
+  - inversion H; reflexivity.
+  - f_equal. apply IH; auto.
+Qed.
+
+Lemma find_row_spec kind : forall t0 p0 n e, find_row kind t0 p0 n = Some e ->
+  snd e = n /\ exists a, snd (fst e) = assoc_id a /\ kind a = true.
+Proof.
+  induction t0 as [|[a names] t0 IH]; intros p0 n e H; cbn in H; [discriminate|].
+  destruct (kind a && existsb (Nat.eqb n) names) eqn:E.
+  - inversion H; subst. cbn. split; auto. exists a. apply andb_true_iff in E. tauto.
+  - eapply IH; eauto.
+Qed.
+
+Lemma parse_op_spec kind p e p' : parse_op tb toks kind p = Some (e, p') ->
+  p' = S p /\ nth_error toks p = Some (TOp (snd e)) /\ exists a, snd (fst e) = assoc_id a /\ kind a = true.
+Proof.
+  unfold parse_op. destruct (nth_error toks p) as [[v|n]|] eqn:E; try discriminate.
+  destruct (find_row kind tb 0 n) as [e0|] eqn:F; [|discriminate].
+  intros H. inversion H; subst. destruct (find_row_spec _ _ _ _ _ F) as (A & B). rewrite A. auto.
+Qed.
+
+Definition IA (s : st) := balA (opds s) (ops s) /\ rbA (opds s) (ops s) = firstn (pos s) toks.
+Definition committed (s : st) :=
+  opds s = [] \/
+  (marker s <= length (ops s) /\
+   balA (opds s) (skipn (length (ops s) - marker s) (ops s)) /\
+   rbA (opds s) (skipn (length (ops s) - marker s) (ops s)) = firstn (outer s) toks).
+Definition IB (s : st) :=
+  length (opds s) = n_infix (ops s) /\ rbB (opds s) (ops s) = firstn (pos s) toks /\ committed s.
+
+Lemma prefixes_IB : forall k s, IB s -> IB (prefixes tb toks k s).
+Proof.
+  induction k as [|k IH]; intros s H; cbn [prefixes]; auto.
+  destruct (parse_op tb toks is_prefix_row (pos s)) as [[e p']|] eqn:E; auto.
+  apply IH. destruct (parse_op_spec _ _ _ _ E) as (Hp & Hn & a & Ha & Hk).
+  destruct a; cbn in Hk; try discriminate. cbn in Ha.
+  destruct e as [[pr ai] nm]. cbn in Ha, Hn. subst ai p'.
+  destruct H as (Hb & Hr & Hc). unfold IB. cbn [opds ops pos marker outer].
+  split; [|split].
+  - unfold n_infix in *. cbn [filter]. unfold is_inf at 1. cbn. exact Hb.
+  - cbn [rbB]. cbn. rewrite Hr. symmetry. apply firstn_snoc. exact Hn.
+  - unfold committed in *. cbn [opds ops marker outer pos].
+    destruct Hc as [Hc|(Hm & Hba & Hra)]; [left; exact Hc|right].
+    cbn [length]. replace (S (length (ops s)) - marker s) with (S (length (ops s) - marker s)) by lia.
+    cbn [skipn]. repeat split; auto.
+Qed.
+
+Lemma postfixes_IA : forall k s, IA s -> IA (postfixes tb toks k s).
+Proof.
+  induction k as [|k IH]; intros s H; cbn [postfixes]; auto.
+  destruct (parse_op tb toks is_postfix_row (pos s)) as [[[[prec ai] name] p']|] eqn:E; auto.
+  destruct (parse_op_spec _ _ _ _ E) as (Hp & Hn & _). cbn in Hn. subst p'.
+  destruct H as (Hb & Hr).
+  destruct (pop_while_rbA (length (ops s)) (fun e => fst (fst e) <? prec) s Hb) as (R1 & R2 & _ & _ & R5).
+  set (s1 := pop_while (length (ops s)) (fun e => fst (fst e) <? prec) s) in *.
+  destruct (opds s1) as [|t rest] eqn:Eo.
+  - unfold balA in R2. cbn in R2. lia.
+  - apply IH. unfold IA. cbn [opds ops pos].
+    split.
+    + unfold balA in *. cbn [length] in *. exact R2.
+    + cbn [rbA yield]. rewrite app_assoc.
+      assert (Hx : rbB rest (ops s1) ++ yield t = firstn (pos s) toks).
+      { rewrite <- Hr, <- R1. reflexivity. }
+      rewrite Hx. symmetry. apply firstn_snoc. exact Hn.
+Qed.
+
+Lemma prec_loop_ok : forall k prec s, balA (opds s) (ops s) ->
+  rbA (opds (fst (prec_loop k prec s))) (ops (fst (prec_loop k prec s))) = rbA (opds s) (ops s)
+  /\ balA (opds (fst (prec_loop k prec s))) (ops (fst (prec_loop k prec s)))
+  /\ outer (fst (prec_loop k prec s)) = outer s
+  /\ marker (fst (prec_loop k prec s)) = marker s
+  /\ length (ops (fst (prec_loop k prec s))) <= length (ops s)
+  /\ (snd (prec_loop k prec s) = false -> pos (fst (prec_loop k prec s)) = pos s)
+  /\ (snd (prec_loop k prec s) = true -> pos (fst (prec_loop k prec s)) = outer s).
+Proof.
+  induction k as [|k IH]; intros prec s Hb; cbn [prec_loop].
+  - cbn. repeat split; auto. discriminate.
+  - destruct (ops s) as [|[[tp ta] nm] ops'] eqn:Eo.
+    + cbn. rewrite Eo. repeat split; auto. discriminate.
+    + rewrite <- Eo in *.
+      destruct ((tp <? prec) || (tp =? prec) && (ta =? 1)) eqn:E1.
+      * destruct (pop_rbA s Hb) as (P1 & P2 & P3 & P4 & P5 & P6); [congruence|].
+        destruct (IH prec (pop_operator s) P2) as (Q1 & Q2 & Q3 & Q4 & Q5 & Q6 & Q7).
+        repeat split; try congruence; try lia.
+        -- intros Hc. rewrite (Q6 Hc). exact P6.
+        -- intros Hc. rewrite (Q7 Hc). exact P5.
+      * destruct ((tp =? prec) && (ta =? 3)) eqn:E2; cbn [fst snd opds ops outer marker pos].
+        -- repeat split; auto; try discriminate.
+        -- repeat split; auto. discriminate.
+Qed.
+
+Lemma finish_ok sf t e :
+  balA (opds sf) (skipn (length (ops sf) - marker sf) (ops sf)) ->
+  rbA (opds sf) (skipn (length (ops sf) - marker sf) (ops sf)) = firstn (pos sf) toks ->
+  finish sf = Some (t, e) -> yield t = firstn e toks.
+Proof.
+  intros Hb Hr Hf. unfold finish in Hf.
+  destruct (opds sf) as [|o0 os] eqn:Eo; [discriminate|]. rewrite <- Eo in *.
+  set (keep := skipn (length (ops sf) - marker sf) (ops sf)) in *.
+  destruct (pop_all_single (length keep) (MK (opds sf) keep (marker sf) (outer sf) (pos sf))) as (t' & T1 & T2 & T3);
+    [exact Hb | cbn; lia |].
+  cbn [opds ops] in T3. rewrite T1 in Hf. cbn in Hf.
+  assert (Hpos : forall k c s, pos (pop_while k c s) = pos s).
+  { induction k as [|k IHk]; intros c s0; cbn [pop_while]; auto.
+    destruct (ops s0) as [|e0 o']; auto. destruct (c e0); auto. rewrite IHk.
+    unfold pop_operator. destruct (ops s0) as [|[[a b] c0] o2]; auto.
+    destruct (opds s0) as [|r od]; auto. destruct (b =? 0); auto. destruct od; auto. }
+  inversion Hf; subst. rewrite Hpos. cbn [pos]. rewrite T3. exact Hr.
+Qed.
+
+Theorem main2_yield : forall k s sf t e,
+  IB s -> main2 k s = Some sf -> finish sf = Some (t, e) -> yield t = firstn e toks.
+Proof.
+  induction k as [|k IH]; intros s sf t e HIB Hm Hf; [discriminate|].
+  cbn [main2] in Hm.
+  pose proof (prefixes_IB (length toks + 1) s HIB) as HP.
+  set (s1 := prefixes tb toks (length toks + 1) s) in *.
+  destruct (parse_opd toks (pos s1)) as [[v p']|] eqn:Eopd.
+  - (* an operand *)
+    assert (Hn : nth_error toks (pos s1) = Some (TOpd v) /\ p' = S (pos s1)).
+    { unfold parse_opd in Eopd. destruct (nth_error toks (pos s1)) as [[v0|n0]|]; try discriminate.
+      inversion Eopd; subst; auto. }
+    destruct Hn as (Hn & ->). destruct HP as (Hb & Hr & _).
+    assert (HA : IA (MK (Opd v :: opds s1) (ops s1) (marker s1) (outer s1) (S (pos s1)))).
+    { split; cbn [opds ops pos].
+      - unfold balA. cbn [length]. rewrite Hb. reflexivity.
+      - cbn [rbA yield]. rewrite Hr. symmetry. apply firstn_snoc. exact Hn. }
+    pose proof (postfixes_IA (length toks + 1) _ HA) as HA2.
+    set (s2 := postfixes tb toks (length toks + 1) _) in *.
+    set (s3 := MK (opds s2) (ops s2) (length (ops s2)) (pos s2) (pos s2)) in *.
+    assert (H3 : balA (opds s3) (ops s3) /\ rbA (opds s3) (ops s3) = firstn (pos s3) toks) by exact HA2.
+    assert (Hfin3 : forall t e, finish s3 = Some (t, e) -> yield t = firstn e toks).
+    { intros t0 e0. apply finish_ok; cbn [opds ops marker pos s3]; rewrite Nat.sub_diag; cbn [skipn]; apply HA2. }
+    destruct (negb (has_infix tb)); [inversion Hm; subst; eauto|].
+    destruct (parse_op tb toks is_infix_row (pos s3)) as [[[[prec a] name] p'']|] eqn:Einf;
+      [|inversion Hm; subst; eauto].
+    destruct (parse_op_spec _ _ _ _ Einf) as (Hp & Hn2 & a0 & Ha0 & Hk0). cbn in Hn2, Ha0. subst p''.
+    assert (Hb4 : balA (opds (set_pos s3 (S (pos s3)))) (ops (set_pos s3 (S (pos s3))))) by apply H3.
+    destruct (prec_loop_ok (length (ops s3) + 1) prec (set_pos s3 (S (pos s3))) Hb4) as (Q1 & Q2 & Q3 & Q4 & Q5 & Q6 & Q7).
+    destruct (prec_loop (length (ops s3) + 1) prec (set_pos s3 (S (pos s3)))) as [s4 conflict] eqn:Epl.
+    cbn [fst snd] in *. cbn [set_pos opds ops outer marker pos s3] in Q1, Q3, Q4, Q5, Q6, Q7.
+    destruct conflict.
+    + (* non-associative conflict: the run ends at the outer checkpoint *)
+      inversion Hm; subst sf. eapply finish_ok; eauto.
+      * replace (length (ops s4) - marker s4) with 0 by lia. exact Q2.
+      * replace (length (ops s4) - marker s4) with 0 by lia. cbn [skipn].
+        rewrite Q1, (Q7 eq_refl). apply HA2.
+    + (* push the operator and go round again *)
+      eapply IH; [|exact Hm|exact Hf].
+      unfold IB. cbn [opds ops pos marker outer].
+      assert (Hinf : is_inf (prec, a, name) = true).
+      { unfold is_inf. cbn. rewrite Ha0. destruct a0; cbn in *; try discriminate; reflexivity. }
+      split; [|split].
+      * unfold n_infix. cbn [filter]. rewrite Hinf. cbn [length]. exact Q2.
+      * cbn [rbB]. unfold is_inf in Hinf. cbn in Hinf. apply negb_true_iff in Hinf. rewrite Hinf.
+        unfold balA in Q2. destruct (opds s4) as [|l od] eqn:Eo4; [cbn in Q2; discriminate|].
+        rewrite app_assoc. cbn [rbA] in Q1. rewrite Q1. rewrite (Q6 eq_refl).
+        destruct HA2 as (_ & HR). cbn [opds ops pos] in HR. rewrite HR.
+        symmetry. apply firstn_snoc. exact Hn2.
+      * right. unfold committed. cbn [opds ops marker outer pos length].
+        replace (S (length (ops s4)) - length (ops s4)) with 1 by lia. cbn [skipn].
+        split; [lia|]. split; [exact Q2|]. rewrite Q1, Q3. apply HA2.
+  - (* no operand: the run ends; restore to the outer checkpoint *)
+    destruct HP as (Hb & Hr & Hc).
+    destruct (opds s1) as [|o0 os] eqn:Eo.
+    + cbn [nonempty] in Hm. inversion Hm; subst sf. unfold finish in Hf. rewrite Eo in Hf. discriminate.
+    + cbn [nonempty] in Hm. inversion Hm; subst sf.
+      unfold committed in Hc. rewrite Eo in Hc. destruct Hc as [Hc|(Hc1 & Hc2 & Hc3)]; [discriminate|].
+      eapply finish_ok; eauto; cbn [set_pos opds ops marker pos]; rewrite ?Eo; auto.
+Qed.
+
+End Yield.
+
+(* from the initial state: whatever the repaired loop returns reads back as
+   exactly the tokens it consumed *)
+Corollary run2_yield tb toks k sf t e :
+  main2 tb toks k (MK [] [] 0 0 0) = Some sf -> finish sf = Some (t, e) -> yield t = firstn e toks.
+Proof.
+  apply main2_yield. unfold IB. cbn. repeat split; auto. left. reflexivity.
+Qed.
+Print Assumptions run2_yield.
